@@ -6,47 +6,57 @@ Import ListNotations.
 Open Scope string_scope.
 Set Implicit Arguments.
 
-Local Notation r2 := (@rd_v2 Qc).  Local Notation r3 := (@rd_v3 Qc).
-Local Notation rp2 := (@rd_p2 Qc). Local Notation rp3 := (@rd_p3 Qc).
-Local Notation rs := (@rd_s Qc).
-Definition rflag : rd Qc bool := rd_map (fun x : Qc => negb (qc_eqb x (Q2Qc 0))) rs.
+Section G.
+  Variable F : Type.
+  Variable O : Ops F.
+  Variable T : Trig F.
+  Variable A : Approx F.
+  Variable toNat : F -> nat.
 
-Definition tab_c09 (o : Orc) : list (string * (list Qc -> val)) :=
-  let T := TrigQ o in
-  let od3 := odec (@m3_list Qc) (@v3_list Qc) in
-  let odq := odec (@quat_sxyz Qc) (@v3_list Qc) in
-  let od2 := odec (@m2_list Qc) (@v2_list Qc) in [
-  ("m2_look_at", run2 r2 r2 (fun d u => om2 (m2_look_at O T d u)));
-  ("m2_look_at_stable", run2 r2 rflag (fun d f => om2 (m2_look_at_stable O T d f)));
-  ("basis2_look_at", run2 r2 r2 (fun d u => om2 (basis2_look_at O T d u)));
-  ("m3_look_to_lh", run2 r3 r3 (fun d u => om3 (m3_look_to_lh O T d u)));
-  ("m3_look_to_rh", run2 r3 r3 (fun d u => om3 (m3_look_to_rh O T d u)));
-  ("m3_look_at_deprecated", run2 r3 r3 (fun d u => om3 (m3_look_to_lh O T d u)));
-  ("basis3_look_at", run2 r3 r3 (fun d u => om3 (basis3_look_at O T d u)));
-  ("quat_look_at", run2 r3 r3 (fun d u => oq (quat_look_at O T d u)));
-  ("m4_look_to_rh", run3 rp3 r3 r3 (fun e d u => om4 (m4_look_to_rh O T e d u)));
-  ("m4_look_to_lh", run3 rp3 r3 r3 (fun e d u => om4 (m4_look_to_lh O T e d u)));
-  ("m4_look_at_dir_deprecated", run3 rp3 r3 r3 (fun e d u => om4 (m4_look_to_rh O T e d u)));
-  ("m4_look_at_rh", run3 rp3 rp3 r3 (fun e c u => om4 (m4_look_at_rh O T e c u)));
-  ("m4_look_at_lh", run3 rp3 rp3 r3 (fun e c u => om4 (m4_look_at_lh O T e c u)));
-  ("m4_look_at_deprecated", run3 rp3 rp3 r3 (fun e c u => om4 (m4_look_at_rh O T e c u)));
-  ("m4_t_look_at", run3 rp3 rp3 r3 (fun e c u => om4 (m4_look_at_rh O T e c u)));
-  ("m3_t3_look_at", run3 rp3 rp3 r3 (fun e c u => om3 (m3_t3_look_at O T e c u)));
-  ("m3_t3_look_at_rh", run3 rp3 rp3 r3 (fun e c u => om3 (m3_t3_look_at_rh O T e c u)));
-  ("m3_t3_look_at_lh", run3 rp3 rp3 r3 (fun e c u => om3 (m3_t3_look_at_lh O T e c u)));
-  ("m3_t2_look_at", run3 rp2 rp2 r2 (fun e c u => om3 (m3_t2_look_at O T e c u)));
-  ("m3_t2_look_at_rh", run3 rp2 rp2 r2 (fun e c u => om3 (m3_t2_look_at_rh O T e c u)));
-  ("m3_t2_look_at_lh", run3 rp2 rp2 r2 (fun e c u => om3 (m3_t2_look_at_lh O T e c u)));
-  ("dec_b3_look_at", run3 rp3 rp3 r3 (fun e c u => od3 (dec_look_at O (RotBasis3 O) (Space3 O) (basis3_look_at O T) e c u)));
-  ("dec_b3_look_at_rh", run3 rp3 rp3 r3 (fun e c u => od3 (dec_look_at_rh O (RotBasis3 O) (Space3 O) (basis3_look_at O T) e c u)));
-  ("dec_b3_look_at_lh", run3 rp3 rp3 r3 (fun e c u => od3 (dec_look_at_lh O (RotBasis3 O) (Space3 O) (basis3_look_at O T) e c u)));
-  ("dec_q_look_at", run3 rp3 rp3 r3 (fun e c u => odq (dec_look_at O (RotQuat O) (Space3 O) (quat_look_at O T) e c u)));
-  ("dec_q_look_at_rh", run3 rp3 rp3 r3 (fun e c u => odq (dec_look_at_rh O (RotQuat O) (Space3 O) (quat_look_at O T) e c u)));
-  ("dec_q_look_at_lh", run3 rp3 rp3 r3 (fun e c u => odq (dec_look_at_lh O (RotQuat O) (Space3 O) (quat_look_at O T) e c u)));
-  ("dec_b2_look_at", run3 rp2 rp2 r2 (fun e c u => od2 (dec_look_at O (RotBasis2 O) (Space2 O) (basis2_look_at O T) e c u)));
-  ("dec_b2_look_at_rh", run3 rp2 rp2 r2 (fun e c u => od2 (dec_look_at_rh O (RotBasis2 O) (Space2 O) (basis2_look_at O T) e c u)));
-  ("dec_b2_look_at_lh", run3 rp2 rp2 r2 (fun e c u => od2 (dec_look_at_lh O (RotBasis2 O) (Space2 O) (basis2_look_at O T) e c u)))
+
+  Local Notation r2 := (@rd_v2 F).    Local Notation r3 := (@rd_v3 F).
+  Local Notation rp2 := (@rd_p2 F).   Local Notation rp3 := (@rd_p3 F).
+  Local Notation rs := (@rd_s F).
+Definition rflag : rd F bool := rd_map (fun x : F => negb (eqb O x (zero O))) rs.
+
+Definition gtab_c09 : list (string * (list F -> gval F)) :=
+  let od3 := odec (@m3_list F) (@v3_list F) in
+  let odq := odec (@quat_sxyz F) (@v3_list F) in
+  let od2 := odec (@m2_list F) (@v2_list F) in [
+  ("m2_look_at", grun2 r2 r2 (fun d u => gm2 (m2_look_at O T d u)));
+  ("m2_look_at_stable", grun2 r2 rflag (fun d f => gm2 (m2_look_at_stable O T d f)));
+  ("basis2_look_at", grun2 r2 r2 (fun d u => gm2 (basis2_look_at O T d u)));
+  ("m3_look_to_lh", grun2 r3 r3 (fun d u => gm3 (m3_look_to_lh O T d u)));
+  ("m3_look_to_rh", grun2 r3 r3 (fun d u => gm3 (m3_look_to_rh O T d u)));
+  ("m3_look_at_deprecated", grun2 r3 r3 (fun d u => gm3 (m3_look_to_lh O T d u)));
+  ("basis3_look_at", grun2 r3 r3 (fun d u => gm3 (basis3_look_at O T d u)));
+  ("quat_look_at", grun2 r3 r3 (fun d u => gq (quat_look_at O T d u)));
+  ("m4_look_to_rh", grun3 rp3 r3 r3 (fun e d u => gm4 (m4_look_to_rh O T e d u)));
+  ("m4_look_to_lh", grun3 rp3 r3 r3 (fun e d u => gm4 (m4_look_to_lh O T e d u)));
+  ("m4_look_at_dir_deprecated", grun3 rp3 r3 r3 (fun e d u => gm4 (m4_look_to_rh O T e d u)));
+  ("m4_look_at_rh", grun3 rp3 rp3 r3 (fun e c u => gm4 (m4_look_at_rh O T e c u)));
+  ("m4_look_at_lh", grun3 rp3 rp3 r3 (fun e c u => gm4 (m4_look_at_lh O T e c u)));
+  ("m4_look_at_deprecated", grun3 rp3 rp3 r3 (fun e c u => gm4 (m4_look_at_rh O T e c u)));
+  ("m4_t_look_at", grun3 rp3 rp3 r3 (fun e c u => gm4 (m4_look_at_rh O T e c u)));
+  ("m3_t3_look_at", grun3 rp3 rp3 r3 (fun e c u => gm3 (m3_t3_look_at O T e c u)));
+  ("m3_t3_look_at_rh", grun3 rp3 rp3 r3 (fun e c u => gm3 (m3_t3_look_at_rh O T e c u)));
+  ("m3_t3_look_at_lh", grun3 rp3 rp3 r3 (fun e c u => gm3 (m3_t3_look_at_lh O T e c u)));
+  ("m3_t2_look_at", grun3 rp2 rp2 r2 (fun e c u => gm3 (m3_t2_look_at O T e c u)));
+  ("m3_t2_look_at_rh", grun3 rp2 rp2 r2 (fun e c u => gm3 (m3_t2_look_at_rh O T e c u)));
+  ("m3_t2_look_at_lh", grun3 rp2 rp2 r2 (fun e c u => gm3 (m3_t2_look_at_lh O T e c u)));
+  ("dec_b3_look_at", grun3 rp3 rp3 r3 (fun e c u => od3 (dec_look_at O (RotBasis3 O) (Space3 O) (basis3_look_at O T) e c u)));
+  ("dec_b3_look_at_rh", grun3 rp3 rp3 r3 (fun e c u => od3 (dec_look_at_rh O (RotBasis3 O) (Space3 O) (basis3_look_at O T) e c u)));
+  ("dec_b3_look_at_lh", grun3 rp3 rp3 r3 (fun e c u => od3 (dec_look_at_lh O (RotBasis3 O) (Space3 O) (basis3_look_at O T) e c u)));
+  ("dec_q_look_at", grun3 rp3 rp3 r3 (fun e c u => odq (dec_look_at O (RotQuat O) (Space3 O) (quat_look_at O T) e c u)));
+  ("dec_q_look_at_rh", grun3 rp3 rp3 r3 (fun e c u => odq (dec_look_at_rh O (RotQuat O) (Space3 O) (quat_look_at O T) e c u)));
+  ("dec_q_look_at_lh", grun3 rp3 rp3 r3 (fun e c u => odq (dec_look_at_lh O (RotQuat O) (Space3 O) (quat_look_at O T) e c u)));
+  ("dec_b2_look_at", grun3 rp2 rp2 r2 (fun e c u => od2 (dec_look_at O (RotBasis2 O) (Space2 O) (basis2_look_at O T) e c u)));
+  ("dec_b2_look_at_rh", grun3 rp2 rp2 r2 (fun e c u => od2 (dec_look_at_rh O (RotBasis2 O) (Space2 O) (basis2_look_at O T) e c u)));
+  ("dec_b2_look_at_lh", grun3 rp2 rp2 r2 (fun e c u => od2 (dec_look_at_lh O (RotBasis2 O) (Space2 O) (basis2_look_at O T) e c u)))
 ].
+End G.
+
+Definition tab_c09 (o : Orc) : list (string * (list Qc -> val)) := qtab (gtab_c09 OpsQ (TrigQ o)).
 
 Definition run_c09 : runner := fun f o args =>
   match dispatch (tab_c09 o) f with Some h => h args | None => VBad end.
